@@ -87,7 +87,8 @@ def build(params, symbolic):
         for sym in context.state.actions:
             if sym.name not in ("STOP", "EMPTY"):
                 counter["injected"] += 1
-                context.token_ahead = Token(sym, "", context.position, length=0)
+                # a missing token is injected: it carries the terminal's text but consumes nothing
+                context.token_ahead = Token(sym, getattr(sym.recognizer, "value", sym.name), context.position, length=0)
                 return True
         return False
 
